@@ -745,9 +745,11 @@ class ByteLoopInterp:
         self.sites[id(node)] = node
         out = {}
         for ph, env in state.items():
-            for ph2, en2, cnt in self._run_items(node, items, ph, env):
+            base, _sep, suf = ph.partition("|")
+            for ph2, en2, cnt in self._run_items(node, items, base, env):
                 en2 = dict(en2)
                 en2[f"#len:{buf}"] = _add(en2[f"#len:{buf}"], cnt)
+                ph2 = ph2 + _sep + suf
                 out[ph2] = _env_join(out.get(ph2), en2)
         return out
 
@@ -966,10 +968,12 @@ class ByteLoopInterp:
                 if isinstance(v.func, ast.Attribute) and v.func.attr == "clear" and not v.args and not v.keywords:
                     r = self.ref_of(v.func.value)
                     if r is not None and r[0] == "buf":
-                        merged = None
-                        for env in state.values():
-                            merged = _env_join(merged, {**env, f"#len:{r[1]}": (0, 0)})
-                        return {("idle" if self.typestate else "-"): merged}
+                        out = {}
+                        for ph, env in state.items():
+                            _b, sep, suf = ph.partition("|")
+                            k = ("idle" if self.typestate else "-") + sep + suf
+                            out[k] = _env_join(out.get(k), {**env, f"#len:{r[1]}": (0, 0)})
+                        return out
                 if self._callee(v) is not None and self._callee(v)[0] != "ctor":
                     out, _d = self.inline(v, state)
                     return out
@@ -1140,21 +1144,27 @@ class ByteLoopInterp:
         # whatever part of the input a loop sees is an arbitrary byte sequence, so every such loop is analysed as
         # "any number of arbitrary bytes" - a sound over-approximation of the shared-iterator semantics.
         src_ref = self.ref_of(st.iter)
-        prologue, genvar, group = [], None, None
+        prologue, epilogue, genvar, group = [], [], None, None
         if src_ref is not None and src_ref[0] == "gen":
-            # generator closure `for b in <input>: <checks>; yield b`: every pull runs the checks, then hands b over
+            # generator closure `for b in <input>: <checks>; yield b; <checks>`: every pull runs the statements before
+            # the yield and hands b over; the statements after the yield run when the consumer asks for the NEXT byte
+            # (also the final time, when the input is exhausted) - not when the consumer stops pulling (break / return)
             g = src_ref[1]
             inner = [x for x in g.body if not (isinstance(x, ast.Expr) and isinstance(x.value, ast.Constant))]
             ok = len(inner) == 1 and isinstance(inner[0], ast.For) and self.ref_of(inner[0].iter) == ("data",) \
                 and isinstance(inner[0].target, ast.Name) and not inner[0].orelse and inner[0].body
+            yi = -1
             if ok:
-                last = inner[0].body[-1]
-                ok = isinstance(last, ast.Expr) and isinstance(last.value, ast.Yield) and isinstance(last.value.value, ast.Name) \
-                    and last.value.value.id == inner[0].target.id and \
-                    sum(1 for x in ast.walk(g) if isinstance(x, (ast.Yield, ast.YieldFrom))) == 1
+                ys = [i for i, x in enumerate(inner[0].body) if isinstance(x, ast.Expr) and isinstance(x.value, ast.Yield)]
+                ok = len(ys) == 1 and sum(1 for x in ast.walk(g) if isinstance(x, (ast.Yield, ast.YieldFrom))) == 1
+                if ok:
+                    yi = ys[0]
+                    y = inner[0].body[yi].value
+                    ok = isinstance(y.value, ast.Name) and y.value.id == inner[0].target.id
             if not ok:
-                self.bad(st, "generator that is not `for b in <input>: ...; yield b`")
-            prologue, genvar = inner[0].body[:-1], self.cur.key(inner[0].target.id)
+                self.bad(st, "generator that is not `for b in <input>: ...; yield b; ...`")
+            prologue, epilogue = inner[0].body[:yi], inner[0].body[yi + 1:]
+            genvar = self.cur.key(inner[0].target.id)
         elif isinstance(st.iter, ast.Call) and (ap(st.iter.func) or "").split(".")[-1] == "groupby" and st.iter.args \
                 and self.ref_of(st.iter.args[0]) == ("data",):
             # itertools.groupby(<input>, pred): maximal runs of bytes on which pred is constant, each non-empty
@@ -1175,9 +1185,25 @@ class ByteLoopInterp:
         if genvar is not None:
             self.loopvars.add(genvar)
 
+        def run_epilogue(s):
+            """states in which a byte was handed out and the statements after the yield are still owed (`|p1`):
+            run them (that is what the next pull does first); the others pass through.  All come back as `|p1`-free."""
+            owed = {ph[:-3]: env for ph, env in s.items() if ph.endswith("|p1")}
+            rest = {ph: env for ph, env in s.items() if not ph.endswith("|p1")}
+            if owed and epilogue:
+                r = self.block(epilogue, owed)
+                if r.brk or r.cont or r.ret:
+                    self.bad(st, "generator that leaves its loop after yielding")
+                owed = r.next
+            return _state_join(rest, owed)
+
         def iteration(head):
+            if epilogue:
+                head = run_epilogue(head)
             zero, nonzero = {}, {}
             for ph, env in head.items():
+                if epilogue:
+                    ph = ph + "|p1"           # a byte is being handed out: its epilogue is owed from here on
                 z = dict(env)
                 z[lv] = (0, 0)
                 if self.ghost:
@@ -1203,7 +1229,7 @@ class ByteLoopInterp:
             return res
 
         drop = {lv, genvar}
-        return self._fixpoint(st, state, fl, iteration, drop)
+        return self._fixpoint(st, state, fl, iteration, drop, on_exhaust=run_epilogue if epilogue else None)
 
     def _pred_truth(self, pred, itv):
         """Truth of the groupby key predicate on a byte interval: True / False / None (not constant on it)."""
@@ -1250,7 +1276,7 @@ class ByteLoopInterp:
             return res
         return self._fixpoint(st, state, fl, iteration, {keyk, runk})
 
-    def _fixpoint(self, st, state, fl, iteration, drop):
+    def _fixpoint(self, st, state, fl, iteration, drop, on_exhaust=None):
         def strip(s):
             return {ph: {k: v for k, v in env.items() if k not in drop} for ph, env in s.items()}
         saved_record = self.record
@@ -1272,7 +1298,9 @@ class ByteLoopInterp:
         self.record = saved_record
         final = iteration(head)
         fl.ret.extend(final.ret)
-        return _state_join(head, strip(final.brk))
+        # leaving because the input is exhausted (what a generator still owes runs on that last pull) / by break
+        done = on_exhaust(head) if on_exhaust is not None else head
+        return _state_join(done, strip(final.brk))
 
     # ---- driver
     def run(self):
@@ -1394,7 +1422,7 @@ def r2(ctx):
         v = it.site_viol.get(nid, [])
         ctx.ob("C03.R2", f"{f.qual}: `{norm(node)}` keeps the output canonical", not v, ctx.w(f, node), "; ".join(v))
     for rn, buf, state in it.returns:
-        ctx.ob("C03.R2", f"{f.qual}: `{norm(rn)}` never leaves a 0x00 without its count", set(state) <= {"idle"}, ctx.w(f, rn),
+        ctx.ob("C03.R2", f"{f.qual}: `{norm(rn)}` never leaves a 0x00 without its count", {ph.partition("|")[0] for ph in state} <= {"idle"}, ctx.w(f, rn),
                "the function can return while a zero marker still waits for its run count (final flush missing)")
     # ghost accounting of consumed zeros, when the run counter can be identified: the one stepped local
     # (`x += 1`) that is written to the output
